@@ -32,8 +32,10 @@ FILES = {
     "d/rustfmt.toml": 'tab_spaces = 2\nbrace_style = "AlwaysNextLine"\n',
     "e/e.rs": "fn  g ( ) { let a = " + "x" * 120 + "; }\n",
     "e/rustfmt.toml": "error_on_line_overflow = true\n",
+    # a crate root whose module is another input: that file is reached twice in one invocation
+    "m.rs": "mod a;\nfn  m ( ) { }\n",
 }
-INPUTS = ["a.rs", "b.rs", "c.rs", "d/d.rs", "e/e.rs"]
+INPUTS = ["a.rs", "b.rs", "c.rs", "d/d.rs", "e/e.rs", "m.rs"]
 MODES = {
     "files": [],
     "stdout": ["--emit", "stdout"],
@@ -100,8 +102,8 @@ def main():
     r = common.Run(
         "C15",
         "model_checking",
-        "CLI half: every ordered subset of size <= 3 (thorough: all sizes <= 5) of 5 input files {formatted, unformatted, "
-        "parse error, local rustfmt.toml, diagnostics via local config} on one command line x {files, stdout, check, json, "
+        "CLI half: every ordered subset of size <= 3 (thorough: all sizes <= 5) of 6 input files {formatted, unformatted, "
+        "parse error, local rustfmt.toml, diagnostics via local config, crate root whose module is another input} on one command line x {files, stdout, check, json, "
         "checkstyle}; each compared with the single-file invocations (bytes, report blocks, exit status = max); path vs "
         "stdin; 3 repetitions, cwd inside / outside the tree with relative and absolute paths, unrelated environment "
         "variables, different HOME contents. Non-trivial = >= 2 inputs of different kinds.",
@@ -116,7 +118,7 @@ def main():
             for f in INPUTS:
                 root = fresh(sc, "t")
                 rc, out, err, contents = invoke(root, mode, [f])
-                single[(mode, f)] = (rc, scrub(out, root), sorted(scrub(err, root).splitlines()), contents[f])
+                single[(mode, f)] = (rc, scrub(out, root), sorted(scrub(err, root).splitlines()), contents)
                 r.evaluated()
         seqs = []
         for k in range(2, maxk + 1):
@@ -173,13 +175,14 @@ def main():
                 )
             if mode == "files":
                 for f in INPUTS:
-                    want_c = single[(mode, f)][3] if f in s else FILES[f].encode()
+                    # what the single-file run of some named input leaves in f (an input can be a module of another)
+                    want_c = next((single[(mode, g)][3][f] for g in s if single[(mode, g)][3][f] != FILES[f].encode()), FILES[f].encode())
                     if contents[f] != want_c:
                         r.violation(cid, "file contents differ from the single-file run", dict(detail, file=f))
             r.sample({"case": cid, "exit": rc})
 
-        # path vs stdin, repetitions, cwd, environment
-        for f in INPUTS:
+        # path vs stdin, repetitions, cwd, environment (single-file inputs: standard input has no modules)
+        for f in [x for x in INPUTS if x != "m.rs"]:
             root = fresh(sc, "t")
             rc_p, out_p, _, _ = invoke(root, "stdout", [f])
             header = (os.path.join(root, f) + ":\n\n").encode()
